@@ -36,6 +36,15 @@ Clauses:
                                without validation data), raised BEFORE any objective call; otherwise the run ends
                                with a documented reason.
 * C06.cross.default_info_no_leak  calls that share the default `info` dictionary do not influence each other.
+
+Parameter coverage (optional `opt` dictionary of a configuration; the systematic part uses the defaults): tau in
+{1, 1.01, 3}, tau0 in {1, 2}, k0 in {1, 2}; growth limits 2/2, 2/3, 3/3 (dr_min >= 2, clipped on nearly square
+unfoldings), 0/1, 0/2 (1/5, 4/6, 0/5 thorough); objective scaled by 1e-12 .. 1e8 (1e+-30 thorough) and the zero
+objective; d = 4, 5 (6 thorough) and mode sizes 9, 12 (20 thorough); pre-filled caches (the model starts from the
+pre-filled keys; SKIP when everything the first sweep asks for is pre-filled, then the cache-specific stop fires);
+the budget given as float (the form of the library's demos) or NumPy integer - info['m_max'] is the integer;
+Fortran-ordered / non-contiguous starts; ragged and over-sized rank profiles of the start; validation data as
+nested lists; callbacks returning None / 0 (never stop); m_cache_scale left at its documented default 5.
 """
 import inspect
 import numpy as np
@@ -45,10 +54,12 @@ from rtc import gen
 
 
 BUDGET = (60, 600)
-BOUNDS = ('d in {2,3}, n_k in 1..4, initial rank 1..3 (gauss / ones / zero cores), growth 0/0, 1/1, 1/2, nswp 2 '
-          '(quick) / 2..3 (thorough), with and without cache: 132 configs (quick) / 612 (thorough), every budget, '
-          'every failing call, every callback sweep, thresholds around every reported value; 64 argument '
-          'combinations on 2 shapes')
+BOUNDS = ('d in {2,3} (4, 5; 6 thorough), n_k in 1..4 (9, 12; 20 thorough), initial rank 1..3 and ragged profiles up to 5 '
+          '(gauss / ones / zero cores), growth 0/0, 1/1, 1/2 and 2/2, 2/3, 3/3, 0/1, 0/2, nswp 2 (quick) / 2..3 (thorough), '
+          'with and without cache (empty / pre-filled): 132 + 64 configs (quick) / 612 + 169 (thorough), every budget '
+          '(int / float / NumPy int), every failing call, every callback sweep, thresholds around every reported value; '
+          'tau {1,1.01,3}, tau0 {1,2}, k0 {1,2}; objective scale 1e-12..1e8 (1e+-30 thorough) and the zero objective; 64 '
+          'argument combinations on 2 shapes')
 
 FUNCS = ('cross.cross', 'cross._func', 'cross._func_eval', 'utils._info_appr')
 STOPS = ('func', 'm', 'e', 'nswp', 'conv', 'e_vld', 'cb')
@@ -149,6 +160,12 @@ def _model(U, cache, m=None, none_at=None, pre=None):
     return dict(batches=batches, m=ev, m_cache=hits, stop=stop)
 
 
+def _conv_fires(U, pre, d):
+    """With a pre-filled cache: is everything the first sweep requests pre-filled?  Then no evaluation happens
+    in sweep 1 and the cache-specific stop 'conv' (m_cache > m_cache_scale * 0) fires - outside these clauses."""
+    return bool(pre) and all(tuple(r.tolist()) in pre for Uj in U[:2 * d] for r in Uj)
+
+
 def _contract(Y, info, f, n, m=None, cache=False):
     """Clauses that hold for EVERY run; returns a message or None."""
     d = len(n)
@@ -211,6 +228,8 @@ def budget_every_m(n, rho, r0, kind, dr_min, dr_max, nswp, tseed, yseed, cache, 
     U, iref, _ = _reference(T, Y0, kw)
     if iref['stop'] != 'nswp' or len(U) != 2 * len(n) * nswp:
         return FAIL(f"reference run: stop {iref['stop']}, {len(U)} requests, expected {2 * len(n) * nswp}")
+    if _conv_fires(U, pre, len(n)):
+        return SKIP("everything the first sweep requests is pre-filled: the cache-specific stop 'conv' fires")
     full = _model(U, cache, pre=pre)
     tot = full['m']
     tested = 0
@@ -248,6 +267,8 @@ def func_none_every_k(n, rho, r0, kind, dr_min, dr_max, nswp, tseed, yseed, cach
     kw = dict(nswp=nswp, dr_min=dr_min, dr_max=dr_max, m_cache_scale=HUGE, **_xkw(opt))
     pre = _pre(T, n, opt, tseed) if cache else None
     U, iref, _ = _reference(T, Y0, kw)
+    if _conv_fires(U, pre, len(n)):
+        return SKIP("everything the first sweep requests is pre-filled: the cache-specific stop 'conv' fires")
     ncalls = len(_model(U, cache, pre=pre)['batches'])
     for k in range(1, ncalls + 1):
         Y, info, f, log = _run(T, Y0, cache, none_at=k, pre=pre, **kw)
